@@ -130,7 +130,7 @@ def make_cases(seed: int, tier: str, n_cases: int | None = None) -> list[dict]:
             if idx % 3 == 0:
                 r0 = rng(cs, "feat")
                 feats = sorted(set(r0.sample(workload.FEATURES, r0.randint(2, 6)))
-                               | set(r0.sample(["FOREIGN_TYPES", "ALIAS_REEXPORT", "TIE_REEXPORT", "MODULE_REEXPORT", "UNDERSCORE_TWIN", "STAR_REEXPORT", "SNAKE_NAMES", "DEEP_PACKAGE", "NAME_ECHO"], 4)))
+                               | set(r0.sample(["FOREIGN_TYPES", "ALIAS_REEXPORT", "TIE_REEXPORT", "MODULE_REEXPORT", "UNDERSCORE_TWIN", "STAR_REEXPORT", "SNAKE_NAMES", "DEEP_PACKAGE", "NAME_ECHO", "TRAILING_UNDERSCORE"], 4)))
                 pkg = workload.generate_package(H(cs, "pkg"), feats)
             if idx % 5 == 1:
                 pkg = wrap_in_container(pkg, r.choice(["rel-1.2", "lib.src", "v2.0.1", "plain_dir"]))
